@@ -128,10 +128,13 @@ type rig struct {
 	cleanup func()
 	gen     istructs.IIDGenerator
 	contID  map[string]uint16
+	// PLog event cache switched off (Params.PLogEventCacheSize = 0): every read decodes stored bytes
+	// and a released event is really freed (its pooled encode buffer is reused by the next encode)
+	cacheOff bool
 }
 
 // backend: mem | bbolt | cached-mem | cached-bbolt
-func newRig(backend string) (*rig, error) {
+func newRig(backend string, cacheOff bool) (*rig, error) {
 	clock := kit.NewClock()
 	base := backend
 	cached := false
@@ -142,7 +145,7 @@ func newRig(backend string) (*rig, error) {
 	if err != nil {
 		return nil, err
 	}
-	r := &rig{backend: backend, raw: inner, st: inner, cleanup: cleanup, gen: istructsmem.NewIDGenerator()}
+	r := &rig{backend: backend, raw: inner, st: inner, cleanup: cleanup, gen: istructsmem.NewIDGenerator(), cacheOff: cacheOff}
 	if cached {
 		c, err := kit.NewCached(inner, clock, 64<<20)
 		if err != nil {
@@ -163,6 +166,9 @@ func (r *rig) restart() error {
 	cfgs := make(istructsmem.AppConfigsType, 1)
 	cfg := cfgs.AddBuiltInAppConfig(appName, buildAppDef())
 	cfg.SetNumAppWorkspaces(istructs.DefaultNumAppWorkspaces)
+	if r.cacheOff {
+		cfg.Params.PLogEventCacheSize = 0
+	}
 	for _, c := range []appdef.QName{cmdOrder, cmdSecret, cmdNone, istructs.QNameCommandCUD} {
 		cfg.Resources.Add(istructsmem.NewCommandFunction(c, istructsmem.NullCommandExec))
 	}
